@@ -531,6 +531,10 @@ theorem restarted_threads_run_once_per_round (n : Nat) (r : List Act) (c : Cfg) 
   have := ((h.starting 0 h0).2 i (by omega)).2 (Nat.zero_le _)
   exact ⟨this.2, this.1⟩
 
+/-- **G obligation.**  In the current source `Thread::join` is an unconditional wait on the thread handle and `ThreadGroup::join` joins
+    every member unconditionally: the model parameter `joinUsesFlag` is false. -/
+theorem join_waits_on_the_thread : Gen.Thread.joinUsesFlag = false := by decide
+
 /-- **join_by_flag_unsafe.**  A `join()` that returns at once when `finished()` is already true is wrong from the second round on:
     the flag is still set from the first round, the join returns while the body is running, and the round is counted with the body
     run only once. -/
